@@ -231,6 +231,9 @@ func explore(w *World, h HarnessSpec, workers int) (*Stats, error) {
 	cfg := defaultConfig()
 	cfg.Preempt = h.Preempt
 	cfg.Trace = traceAll
+	if h.Params["ZZMARKONLY"] == 1 {
+		cfg.MarkOnly = true
+	}
 	if h.Params["ZZDETSCHED"] == 1 {
 		cfg.DetSched = true
 	}
